@@ -23,7 +23,7 @@ HARNESSES = [
 ]
 JOBS = 8
 MANIFEST = {
-  'level_text': 'Bounded model checking of the per-value readers: for every attribute text within the byte bound, a value outside the grammar of its kind (wrong literal kind, undeclared enumeration item, unterminated string, reference to a non-existent instance) is never reported clean, and the reader stops at the delimiter so the neighbouring attributes are read from the right place. Token/attribute level only.',
+  'level_text': 'Bounded model checking of the per-value readers: for every attribute text within the byte bound, a value outside the grammar of its kind (wrong literal kind, undeclared enumeration item, unterminated string, reference to a non-existent instance) is never reported clean, and the reader stops at the delimiter so the neighbouring attributes are read from the right place; a record the reader gives up on is skipped exactly up to its own semicolon (SkipInstance). Token/attribute level only.',
   'level_note': 'Trusted: as C09/C14 (CBMC, ir2c, vstd, harness instance-manager double). Outside the claim: arity checks and recovery in SDAI_Application_instance::STEPread, unknown/abstract entity keywords (Registry), duplicate ids, the callers of SkipInstance (the routine itself: resync_skip_instance), resynchronisation in STEPfile, SELECT and complex parts, the exit status of p21read.',
   'technique': 'CBMC bounded model checking of the IR-translated literal and reference readers against reference grammars (shared harnesses with C09/C14)',
   'design_ref': 'DESIGN.md section 2, C03',
